@@ -151,8 +151,9 @@ func (c *Authority) VerifyQuorumCert(qc hotstuff.QuorumCert) error {
 
 // VerifyTimeoutCert verifies a timeout certificate.
 func (c *Authority) VerifyTimeoutCert(tc hotstuff.TimeoutCert) error {
-	// view 0 TC is always valid.
-	if tc.View() == 0 {
+	// the view 0 TC that every replica starts with is valid; nobody signed it.
+	// A view 0 TC that carries a signature is verified like any other.
+	if tc.View() == 0 && tc.Signature() == nil {
 		return nil
 	}
 	if tc.Signature() == nil {
